@@ -499,9 +499,13 @@ impl Scope {
         let module = module.with_forwarded();
         match as_n {
             UseAs::KeepName => {
+                let name =
+                    name.rfind([':', '/']).map_or(name, |i| &name[i + 1..]);
+                let name = name.strip_prefix('_').unwrap_or(name);
                 let name = name
-                    .rfind([':', '/'])
-                    .map_or(name, |i| &name[i + 1..])
+                    .strip_suffix(".scss")
+                    .or_else(|| name.strip_suffix(".css"))
+                    .unwrap_or(name)
                     .replace('_', "-");
                 self.define_module(name, module.expose(expose));
             }
